@@ -94,6 +94,19 @@ type collector struct {
 	mu   sync.Mutex
 	got  [][]byte
 	done chan struct{}
+	err  error // what ended the reader
+}
+
+// ended reports the error that made the reader return, if it has.
+func (c *collector) ended() error {
+	select {
+	case <-c.done:
+		c.mu.Lock()
+		defer c.mu.Unlock()
+		return c.err
+	default:
+		return nil
+	}
 }
 
 func startReader(c net.Conn, bufSize int) *collector {
@@ -104,6 +117,9 @@ func startReader(c net.Conn, bufSize int) *collector {
 		for {
 			n, err := c.Read(buf)
 			if err != nil {
+				col.mu.Lock()
+				col.err = err
+				col.mu.Unlock()
 				return
 			}
 			cp := append([]byte(nil), buf[:n]...)
@@ -205,12 +221,36 @@ func TestC18Bridge(t *testing.T) {
 		// reader goroutine must show exactly that many, so comparisons do not
 		// depend on timing.
 		var handed [2]int
+		// a reader must not see an error while both endpoints are open: every read returns a
+		// message (Process would wait for ever for a reader that has given up)
+		readersAlive := func(when string) {
+			for d := 0; d < 2; d++ {
+				if cols[d] == nil {
+					continue
+				}
+				if err := cols[d].ended(); err != nil {
+					br.Drop(0, 0, br.Len(0)) // lets a Process call that is still running return
+					br.Drop(1, 0, br.Len(1))
+					t.Fatalf("C18: %s: Read on the endpoint that receives direction %d failed with %q although neither endpoint has been closed (after %d messages); every read must return the next message", when, d, err, len(cols[d].snapshot()))
+				}
+			}
+		}
 		deliver := func(what string, f func()) {
 			var before [2]int
 			for d := 0; d < 2; d++ {
 				before[d] = br.Len(d)
 			}
-			f()
+			fin := make(chan struct{})
+			go func() { defer close(fin); f() }()
+			for running := true; running; {
+				select {
+				case <-fin:
+					running = false
+				case <-time.After(2 * time.Millisecond):
+					readersAlive("during " + what)
+				}
+			}
+			readersAlive("after " + what)
 			for d := 0; d < 2; d++ {
 				k := before[d] - br.Len(d)
 				if k < 0 {
